@@ -28,6 +28,16 @@ class _TupleStrip(ast.NodeTransformer):
     """tuple(x) -> x for x a parameter-like name/tuple() chain: `required` is
     rebound to tuple(required) in several functions; both denote the key."""
 
+    def visit_Subscript(self, node):
+        self.generic_visit(node)
+        # (a, b)[0] is a
+        if isinstance(node.value, ast.Tuple) and isinstance(node.slice, ast.Constant) and \
+                isinstance(node.slice.value, int) and not isinstance(node.slice.value, bool) \
+                and 0 <= node.slice.value < len(node.value.elts) and not any(
+                    isinstance(e, ast.Starred) for e in node.value.elts):
+            return node.value.elts[node.slice.value]
+        return node
+
     def visit_BinOp(self, node):
         self.generic_visit(node)
         # 1 + n is n + 1 (an integer literal on the left of an index sum)
@@ -1027,6 +1037,22 @@ def subscribers_spec(rep, rule, func, site):
                 problems.append('handlers (provided None) must return (): `%s`' % ret[:30])
         else:
             called_a += looped
+            comp_ok = False
+            r_ = ps.ret
+            if isinstance(r_, ast.ListComp) and len(r_.generators) == 1:
+                g_ = r_.generators[0]
+                inner = g_.iter
+                if isinstance(g_.target, ast.Name) and nt(r_.elt) == g_.target.id and \
+                        [nt(c) for c in g_.ifs] in (['%s is not None' % g_.target.id],) and \
+                        isinstance(inner, (ast.ListComp, ast.GeneratorExp)) and \
+                        len(inner.generators) == 1 and not inner.generators[0].ifs and \
+                        isinstance(inner.generators[0].target, ast.Name) and \
+                        nt(inner.generators[0].iter) == sub and \
+                        nt(inner.elt) == '%s(*objects)' % inner.generators[0].target.id:
+                    comp_ok = True
+                    called_a += 1
+            if comp_ok:
+                continue
             if ret not in ('[]', 'list()'):
                 problems.append('returns `%s`' % ret[:40])
             if looped:
